@@ -129,6 +129,7 @@ pub struct Ctx {
     pub hashes: Vec<u64>,
     pub giant: Option<crate::giant::Giant>,
     pub giant_tried: bool,
+    pub giant_slow: u32,
     pub vg_errors: usize,
 }
 
@@ -180,7 +181,7 @@ const SUFFIXES: [&[u8]; 8] = [b"\n", b"a", b"\r\n\r\n", b" ", b":", b"\0", b"\r"
 impl Ctx {
     pub fn new(modes: u32, big: bool) -> Ctx {
         let sz = if big { 2 << 20 } else { 64 << 10 };
-        Ctx { arena: Arena::new(sz), arena2: Arena::new(sz), modes, stats: Stats::default(), violations: Vec::new(), max_violations: 200, hashes: Vec::new(), giant: None, giant_tried: false, vg_errors: 0 }
+        Ctx { arena: Arena::new(sz), arena2: Arena::new(sz), modes, stats: Stats::default(), violations: Vec::new(), max_violations: 200, hashes: Vec::new(), giant: None, giant_tried: false, giant_slow: 0, vg_errors: 0 }
     }
 
     fn report(&mut self, tags: Tags, entry: u8, context: &str, line: &str) {
@@ -443,6 +444,38 @@ impl Ctx {
             }
         }
 
+        // ---- the same from a value that has been used before (an earlier parse of another buffer
+        // set the start-line fields and returned Partial): the entry points still agree with each
+        // other - fields included, whatever the verdict - and the verdict is the fresh value's
+        if modes & M_ENTRIES != 0 && (v.kind == K_REQ || v.kind == K_RESP) && !base.panicked {
+            let dflt = v.cfg & v.relevant_mask() == 0;
+            let bd = run_dirty(entry, v.cfg, buf, cap);
+            self.stats.observations += 1;
+            if !bd.panicked {
+                if let Some(m) = same_result(&base, buf, &bd, buf) {
+                    let t = vec![("C18", format!("on a value used before, {} answers differently than on a fresh value: {}", ENTRY_NAMES[entry as usize], m))];
+                    self.report(t, entry, "used value", line);
+                }
+                let key = |o: &Obs| (o.method.map(|s| (s.ptr, s.len)), o.path.map(|s| (s.ptr, s.len)), o.reason.map(|s| (s.ptr, s.len)), o.version, o.code);
+                for &e in entries_of(v.kind, dflt) {
+                    if e == entry {
+                        continue;
+                    }
+                    let od = run_dirty(e, v.cfg, buf, cap);
+                    self.stats.observations += 1;
+                    self.stats.entry_expansions += 1;
+                    if od.panicked {
+                        continue;
+                    }
+                    let m = same_result(&bd, buf, &od, buf).or_else(|| if key(&bd) != key(&od) { Some("start-line fields differ".to_string()) } else { None });
+                    if let Some(m) = m {
+                        let t = vec![("C16", format!("on a value used before, {} disagrees with {}: {}", ENTRY_NAMES[e as usize], ENTRY_NAMES[entry as usize], m))];
+                        self.report(t, e, "entry expansion, used value", line);
+                    }
+                }
+            }
+        }
+
         // ---- options the kind does not read; all 128 on default-Complete inputs
         if modes & M_CFGS != 0 && (v.kind == K_REQ || v.kind == K_RESP) {
             let rel = v.relevant_mask();
@@ -661,13 +694,34 @@ impl Ctx {
                 for t in 0..2u64 {
                     let j = ((idx.wrapping_mul(2) + t).wrapping_mul(7) % 41) as usize;
                     let total = crate::giant::FOUR_G + j;
-                    let g = self.giant.as_mut().unwrap();
+                    let g = match self.giant.as_mut() { Some(g) => g, None => break };
                     let p2 = g.place(&head, total);
                     let p2: &[u8] = unsafe { std::slice::from_raw_parts(p2.as_ptr(), p2.len()) };
+                    let t0 = std::time::Instant::now();
                     let o = run(entry, v.cfg, p2, cap);
+                    let mut slow = t0.elapsed().as_millis() > 250;
+                    if slow {
+                        // (a descheduled thread looks the same once; not twice in a row)
+                        let t1 = std::time::Instant::now();
+                        let _ = run(entry, v.cfg, p2, cap);
+                        slow = t1.elapsed().as_millis() > 250;
+                    }
                     self.stats.observations += 1;
                     self.stats.placements += 1;
                     let mut tg = Tags::new();
+                    if slow {
+                        // the head is a few dozen bytes and decides the answer; a quarter of a second
+                        // means the code went on reading the gigabytes behind it
+                        let m = format!("the call took {} ms on a {}-byte head followed by zeros: the code keeps reading far behind the bytes that decide the answer", t0.elapsed().as_millis(), head.len());
+                        tg.push(("C20", m.clone()));
+                        tg.push(("C02", m.clone()));
+                        tg.push((v.language_prop(), m.clone()));
+                        tg.push(("C05", m));
+                        self.giant_slow += 1;
+                        if self.giant_slow >= 3 {
+                            self.giant = None; // three are enough; do not crawl through the family
+                        }
+                    }
                     if o.panicked {
                         tg.push(("C01", "the call panicked".into()));
                     } else if v.st != ST_P {
